@@ -50,12 +50,12 @@ for pf in (13, 31):
         pt("point_add_affine", "h_point_add_affine", "sm2_z256_point_add_affine = group law (incl. P = Q, P = -Q, infinity)", pf, tier=t),
         pt("get_xy", "h_get_xy", "point_get_xy / is_at_infinity: affine coordinates from every Jacobian representative", pf, tier=t),
     ]
-    for z1 in range(1, pf):
+    for z1 in (range(1, pf) if pf == 13 else (1, 30)):      # F_31: two representatives only (measured: ~900 k operand tuples per obligation, no verdict within 900 s); budget 3000 s
         tz = "quick" if (pf == 13 and z1 in (1, 2, 5, 12)) else "thorough"
         for nm, en, ti in (("point_add", "h_point_add", "sm2_z256_point_add = group law (P+Q, P=Q, P=-Q, infinity on either side)"),
                            ("point_neg_sub", "h_point_neg_sub", "point_neg, point_sub = group law"),
                            ("point_add_inplace", "h_point_add_inplace", "sm2_z256_point_add with R == A = group law")):
-            OBLIGATIONS.append(pt("%s.z%d" % (nm, z1), en, ti, pf, tier=tz, defs=["-DPF=%d" % pf, "-DZ1FIX=%d" % z1],
+            OBLIGATIONS.append(pt("%s.z%d" % (nm, z1), en, ti, pf, tier=tz, defs=["-DPF=%d" % pf, "-DZ1FIX=%d" % z1], timeout=900 if pf == 13 else 3000,
                                   bounds="field F_%d, every non-singular curve y^2 = x^3 - 3x + b, all affine points without 2-torsion; first operand with Jacobian Z = %d, second operand every representative; both infinity encodings" % (pf, z1)))
 
 DLOG_RM = ["sm2_z256_point_set_infinity", "sm2_z256_point_dbl", "sm2_z256_point_add", "sm2_z256_point_sub", "sm2_z256_point_neg", "sm2_z256_point_copy_affine",
